@@ -28,6 +28,12 @@ def build(level, specs):
         p = OnDiskPartition()
         for k, v in data.items():
             p[k] = v
+    elif own["kind"] == "ddict":  # an in-memory partition over a dict subclass with a default factory
+        import collections
+
+        dd = collections.defaultdict(list)
+        dd.update(data)
+        p = InMemoryPartition(dd)
     else:
         p = InMemoryPartition(data)
     if level > 0:
@@ -38,4 +44,9 @@ def build(level, specs):
 @m.memento_function(cluster="vfc", version="1")
 def part(level, specs):
     sys.audit("vf.body", "part", level)
-    return build(level, specs)
+    p = build(level, specs)
+    if specs[level].get("override"):  # every level of the chain is stored under ONE shared key override
+        from twosigma.memento.result import KeyOverrideResult
+
+        return KeyOverrideResult(p, "pk/shared")
+    return p
